@@ -9,6 +9,7 @@ scenario; profiles select sub-alphabets (DESIGN Appendix D):
             alphabet for which the C01 oracle is exact
   interpod  basic + pod (anti)affinity and topology spread archetypes (C01 must still hold; C02's food)
   reserved  basic + reserved offerings / reservation ids (C17's food)
+  weights   weighted pools, limits, price ties, minValues, reduced MaxInstanceTypes (C19 / C13 b-d; checks/weights_common.py)
 """
 import copy
 import json
@@ -367,6 +368,9 @@ def interpod_archetypes(rng):
 
 
 def explore(rng, profile="basic", name="x"):
+    if profile == "weights":      # C19 / C13(b-d): the sub-alphabet with an exact fresh-node oracle (checks/weights_common.py)
+        from checks import weights_common
+        return weights_common.explore(rng, name)
     types = gen_catalog(rng, profile)
     pools = gen_pools(rng, types, profile)
     dss = gen_daemonsets(rng)
